@@ -94,7 +94,10 @@ def generate(rng, tier, index):
         for _ in range(rng.randint(2, 3)):
             k2 = rng.choice(['flip', 'sub', 'delete', 'insert'])
             ops.append({'kind': k2, 'pos': rng.randrange(n * (8 if k2 == 'flip' else 1)), 'val': rng.randrange(256)})
-    return mk(framing, decoder, frames, target, ops)
+    scn = mk(framing, decoder, frames, target, ops)
+    # what the receiving loop does when the receive call raises: reset the framer (sync serial handler) or nothing
+    scn['policy'] = rng.choice(['reset', 'keep'])
+    return scn
 
 
 def systematic(tier):
@@ -129,7 +132,7 @@ def execute(scn):
     changed = chunks[scn['target']] != frames[scn['target']]
     given = b''.join(chunks)
     res = rx.run({'framing': framing, 'decoder': scn['decoder'], 'chunks': [c.hex() for c in chunks] + [''],
-                  'units': None, 'single': True, 'on_exception': 'reset'})
+                  'units': None, 'single': True, 'on_exception': scn.get('policy', 'reset')})
     kinds = sorted(set(o['kind'] for o in scn['ops']))
     out = {'violations': [], 'inconclusive': False, 'nontrivial': changed, 'digest': res.digest, 'shape': res.digest,
            'vtime': 0.0, 'steps': len(chunks), 'faults': {}, 'probes': {},
